@@ -46,6 +46,10 @@ fn gen_map(r: &mut Rng, index: u64) -> Attributes {
     if index % 2 == 0 {
         a.insert("zz-after-long".into(), Variant::Int32(index as i32));
     }
+    if index % 97 == 0 {
+        // a blob past 64 KiB (the file-level leg then stores it in both formats)
+        a.insert("hugebytes".into(), Variant::BinaryString(vec![0x3cu8; *r.pick(&[65536usize, 65537, 70000, 200000])].into()));
+    }
     if index % 13 == 0 {
         a.insert("fontempty".into(), Variant::Font(Font { family: String::new(), weight: FontWeight::Thin, style: FontStyle::Italic, cached_face_id: None }));
     }
